@@ -59,6 +59,7 @@ def dispatch (op : String) (args : List String) (obs : String) : String × Strin
   | "ind" => c12ind args obs
   | "indr" => c12indr args obs
   | "flr" => c12flr args obs
+  | "df" => c12df args obs
   | "cf" => c12cf args obs
   | "badc" => c12badc args obs
   | "rst" => c18rst args obs
